@@ -564,6 +564,47 @@ func famServeWant(want ...string) family {
 				}
 			}
 		}
+		// deterministic tree stress (3): well-formed non-ASCII code points in host position under a wildcard and next to an
+		// exact pattern (a scanner that decodes runes and keeps the low byte takes U+0161 for `a`)
+		{
+			c := &cors.Config{Origins: []string{"https://example.com", "https://*.example.org"}, Credentialed: true}
+			m := newMW(c, false)
+			var cps []rune
+			for cp := rune(0x100); cp < 0x250; cp++ {
+				cps = append(cps, cp)
+			}
+			cps = append(cps, 0x430, 0x435, 0x43e, 0x4e61, 0x3b1, 0x212a, 0x17f, 0x130, 0xff41, 0x1d41a, 0x10161, 0xe0061)
+			for _, cp := range cps {
+				if m == nil {
+					break
+				}
+				for _, og := range []string{"https://" + string(cp) + ".example.org", "https://p" + string(cp) + "ypal.example.org", "https://ex" + string(cp) + "mple.com"} {
+					emitOne(c, false, m, reqT{method: "GET", hdrs: http.Header{"Origin": {og}}}, "tree-stress/code-points")
+				}
+			}
+		}
+		// deterministic size stress: requested-header lists of 9 000 bytes in one line and in 2 000 lines, from an allowed
+		// and from a disallowed origin, with an allowed and a disallowed method (the refusal must look the same)
+		{
+			c := &cors.Config{Origins: []string{"https://example.com"}, Credentialed: true, Methods: []string{"PUT"}, RequestHeaders: []string{"X-Api-Key"}}
+			many := make([]string, 2000)
+			for k := range many {
+				many[k] = "x-bar"
+			}
+			for _, debug := range []bool{false, true} {
+				m := newMW(c, debug)
+				if m == nil {
+					continue
+				}
+				for _, og := range []string{"https://example.com", "https://attacker.example"} {
+					for _, meth := range []string{"PUT", "DELETE"} {
+						for _, acrh := range [][]string{{"x-" + strings.Repeat("a", 9000)}, many, {"x-api-key" + strings.Repeat(" ", 9000)}, {strings.Repeat(",", 9000)}} {
+							emitOne(c, debug, m, reqT{method: "OPTIONS", hdrs: http.Header{"Origin": {og}, "Access-Control-Request-Method": {meth}, "Access-Control-Request-Headers": acrh}}, "size-stress/acrh")
+						}
+					}
+				}
+			}
+		}
 		for i := 0; i < ncfg; i++ {
 			var c *cors.Config
 			if i%25 != 24 {
